@@ -101,7 +101,7 @@ pub fn run(ctx: &mut Ctx) {
     let rounds = if ctx.thorough() { 3 } else { 1 };
     for _ in 0..rounds {
         // (a)-(d): clients that never finish; each in its own thread, all at once
-        let kinds = ["silent", "half_hello", "dripping_hello", "hello_then_silent", "garbage_then_silent"];
+        let kinds = ["silent", "half_hello", "dripping_hello", "hello_then_silent", "garbage_then_silent", "first_record_of_a_fragmented_hello", "other_record_type_then_silent"];
         let mut handles = vec![];
         for kind in kinds {
             let hello = hello.clone();
@@ -122,6 +122,16 @@ pub fn run(ctx: &mut Ctx) {
                     }
                     "garbage_then_silent" => {
                         let _ = s.write_all(&[22, 3, 1, 0x01]);
+                    }
+                    "first_record_of_a_fragmented_hello" => {
+                        // one complete TLS record that holds the first 32 bytes of the hello's handshake message, then nothing
+                        let mut rec = vec![22, hello[1], hello[2], 0, 32];
+                        rec.extend_from_slice(&hello[5..37]);
+                        let _ = s.write_all(&rec);
+                    }
+                    "other_record_type_then_silent" => {
+                        // a complete record that is not a handshake record (nothing to look for in it), then nothing
+                        let _ = s.write_all(&[23, 3, 3, 0, 4, 1, 2, 3, 4]);
                     }
                     _ => {
                         // a byte every 50 ms: never complete within H (the hello has > 100 bytes), always some progress
@@ -153,7 +163,7 @@ pub fn run(ctx: &mut Ctx) {
                     "handshake_not_dropped",
                     &format!("{}: the connection was still open after {} ms", desc, patience.as_millis()),
                 ),
-                Some(t) if t < Duration::from_millis(H_MS - 30) && kind != "garbage_then_silent" => ctx.oracle_failure(
+                Some(t) if t < Duration::from_millis(H_MS - 30) && kind != "garbage_then_silent" && kind != "other_record_type_then_silent" => ctx.oracle_failure(
                     "handshake_dropped_early",
                     &format!("{}: the connection was dropped after {} ms", desc, t.as_millis()),
                 ),
